@@ -126,7 +126,10 @@ func (e *ErrSpec) Expect() map[byte]string {
 			}
 		case 's':
 			if !has['S'] {
-				f['S'], has['S'] = w.S, true
+				has['S'] = true
+				if w.S != "" { // an empty outermost severity means the default (ERROR)
+					f['S'] = w.S
+				}
 			}
 		case 'h':
 			if !has['H'] {
